@@ -687,3 +687,70 @@ package client
 //@   requires e != nil
 //@   ensures result <==> (istype(e.Msg, "*ChannelUpdateAccMsg") && payload(e.Msg) != 0 && as(e.Msg, "*ChannelUpdateAccMsg").ChannelID == *id) ||
 //@                        (istype(e.Msg, "*ChannelUpdateRejMsg") && payload(e.Msg) != 0 && as(e.Msg, "*ChannelUpdateRejMsg").ChannelID == *id)
+
+// ---------------------------------------------------------------------------
+// Round trip of the proposal messages (C14), token level: compositions of the lemmas of package channel, wallet and wire (nested
+// values with a lemma are summary tokens; see channel/zz_verif_contracts.go for the vocabulary).
+// ---------------------------------------------------------------------------
+//@ pred baseWFc(x BaseChannelProposal) = x.InitBals != nil && allocWF(*x.InitBals) && balWF(x.FundingAgreement) && x.App != nil && x.InitData != nil &&
+//@   marshalLen(x.InitData) <= 65535 && (!isNoApp(x.App) ==> marshalLen(appDef(x.App)) <= 65535)
+//@ pred baseEqc(y BaseChannelProposal, x BaseChannelProposal) = y.ProposalID == x.ProposalID && y.ChallengeDuration == x.ChallengeDuration && y.NonceShare == x.NonceShare &&
+//@   (isNoApp(x.App) ==> isNoApp(y.App)) && y.App != nil && y.InitData != nil && unmarshalledFrom(y.InitData) == marshalOf(x.InitData) &&
+//@   y.InitBals != nil && allocRT(*y.InitBals, *x.InitBals) && balEq(y.FundingAgreement, x.FundingAgreement) && y.Aux == x.Aux
+//@ codec BaseChannelProposal wf baseWFc eq baseEqc by verifRoundTripBaseChannelProposal mayreject
+//@ func verifRoundTripBaseChannelProposal
+//@   tokenmodel
+//@   requires w0 != nil && r0 != nil && baseWFc(x)
+//@   modifies *
+//@   inlines (BaseChannelProposal).Encode, (*BaseChannelProposal).Decode, (OptAppAndDataEnc).Encode, (OptAppAndDataDec).Decode, (OptAppEnc).Encode, (OptAppDec).Decode
+//@   callsite Resolve : unmarshalledFrom(def) == marshalOf(appDef(x.App))
+//@   ensures encErr == nil && decErr == nil ==> !desync(r0) && rcount(r0) - old(rcount(r0)) == wcount(w0) - old(wcount(w0))
+//@   ensures encErr == nil && decErr == nil ==> baseEqc(y, x)
+
+//@ pred ledgerPropWFc(x LedgerChannelProposalMsg) = baseWFc(x.BaseChannelProposal) && addrMapWF(x.Participant) && wAddrArrWF(x.Peers)
+//@ pred ledgerPropEqc(y LedgerChannelProposalMsg, x LedgerChannelProposalMsg) = baseEqc(y.BaseChannelProposal, x.BaseChannelProposal) &&
+//@   addrMapEq(y.Participant, x.Participant) && wAddrArrEq(y.Peers, x.Peers)
+//@ func verifRoundTripLedgerChannelProposalMsg
+//@   tokenmodel
+//@   requires w0 != nil && r0 != nil && ledgerPropWFc(x)
+//@   modifies *
+//@   inlines (LedgerChannelProposalMsg).Encode, (*LedgerChannelProposalMsg).Decode
+//@   ensures encErr == nil && !rfail(r0) && !rejected(r0) ==> decErr == nil
+//@   ensures encErr == nil && decErr == nil ==> !desync(r0) && rcount(r0) - old(rcount(r0)) == wcount(w0) - old(wcount(w0))
+//@   ensures encErr == nil && decErr == nil ==> ledgerPropEqc(y, x)
+
+//@ func verifRoundTripSubChannelProposalMsg
+//@   tokenmodel
+//@   requires w0 != nil && r0 != nil && baseWFc(x.BaseChannelProposal)
+//@   modifies *
+//@   inlines (SubChannelProposalMsg).Encode, (*SubChannelProposalMsg).Decode
+//@   ensures encErr == nil && !rfail(r0) && !rejected(r0) ==> decErr == nil
+//@   ensures encErr == nil && decErr == nil ==> !desync(r0) && rcount(r0) - old(rcount(r0)) == wcount(w0) - old(wcount(w0))
+//@   ensures encErr == nil && decErr == nil ==> baseEqc(y.BaseChannelProposal, x.BaseChannelProposal) && y.Parent == x.Parent
+
+//@ func verifRoundTripLedgerChannelProposalAccMsg
+//@   tokenmodel
+//@   requires w0 != nil && r0 != nil && addrMapWF(x.Participant)
+//@   modifies *
+//@   inlines (LedgerChannelProposalAccMsg).Encode, (*LedgerChannelProposalAccMsg).Decode, (BaseChannelProposalAcc).Encode, (*BaseChannelProposalAcc).Decode
+//@   ensures encErr == nil && !rfail(r0) && !rejected(r0) ==> decErr == nil
+//@   ensures encErr == nil && decErr == nil ==> !desync(r0) && rcount(r0) - old(rcount(r0)) == wcount(w0) - old(wcount(w0))
+//@   ensures encErr == nil && decErr == nil ==> y.ProposalID == x.ProposalID && y.NonceShare == x.NonceShare && addrMapEq(y.Participant, x.Participant)
+
+//@ func verifRoundTripSubChannelProposalAccMsg
+//@   tokenmodel
+//@   requires w0 != nil && r0 != nil
+//@   modifies *
+//@   inlines (SubChannelProposalAccMsg).Encode, (*SubChannelProposalAccMsg).Decode, (BaseChannelProposalAcc).Encode, (*BaseChannelProposalAcc).Decode
+//@   ensures encErr == nil && !rfail(r0) ==> decErr == nil
+//@   ensures encErr == nil && decErr == nil ==> !desync(r0) && rcount(r0) - old(rcount(r0)) == wcount(w0) - old(wcount(w0))
+//@   ensures encErr == nil && decErr == nil ==> y.ProposalID == x.ProposalID && y.NonceShare == x.NonceShare
+
+//@ func verifRoundTripChannelProposalRejMsg
+//@   tokenmodel
+//@   requires w0 != nil && r0 != nil
+//@   modifies *
+//@   inlines (ChannelProposalRejMsg).Encode, (*ChannelProposalRejMsg).Decode
+//@   ensures encErr == nil && !rfail(r0) ==> decErr == nil
+//@   ensures encErr == nil && decErr == nil ==> !desync(r0) && rcount(r0) - old(rcount(r0)) == wcount(w0) - old(wcount(w0))
+//@   ensures encErr == nil && decErr == nil ==> y.ProposalID == x.ProposalID && y.Reason == x.Reason
